@@ -136,6 +136,25 @@ func famFlagReplace() []explore.Event {
 	}
 }
 
+// reselect-other: the observer leaves the mailbox for ANOTHER one (SELECT / EXAMINE) while announcements for the old
+// one are still queued in its session; one message lives in both mailboxes. Nothing that was queued for the old
+// mailbox may leak into the view of the new one.
+func famReselectOther() []explore.Event {
+	return []explore.Event{
+		ev("deliver", 0),
+		conn("create:INBOX"),
+		conn("remove:INBOX:first"),
+		conn("add:INBOX:first:m2"),
+		ev("cmd", 1, `STORE 1 +FLAGS (\Deleted)`),
+		ev("cmd", 1, `EXPUNGE`),
+		ev("cmd", 0, `FETCH 1:* (FLAGS)`),
+		ev("cmd", 0, `SELECT m2`),
+		ev("cmd", 0, `EXAMINE m2`),
+		ev("cmd", 0, `SELECT INBOX`),
+		ev("cmd", 0, "NOOP"),
+	}
+}
+
 func famUnion() []explore.Event {
 	seen := map[string]bool{}
 	var out []explore.Event
@@ -160,6 +179,7 @@ func sessionFamilies(oracles []string, d, dUnion int) []explore.Family {
 		mboxFam("flag-replace", d, oracles, 2, nil, famFlagReplace()),
 		mboxFam("union", dUnion, oracles, 3, sel3, famUnion()),
 		idleBulkFam("idle-bulk", d, oracles, famIdle()),
+		mboxFam("reselect-other", d, oracles, 2, nil, famReselectOther()),
 	}
 }
 
